@@ -23,7 +23,7 @@ CONSTANTS NW,        \* threads_max
           HdrSz,     \* size of the Stream Header (1 unit in model checking, 12 bytes in traces)
           TailSz,    \* size of Index + Stream Footer (2 units in model checking)
           MaxReinit, \* how often the application may re-initialise the handle without lzma_end()
-          FixLostWorker, \* BOOLEAN: hypothetical repair of the lost-worker defect (see AppReinit); FALSE = the code as it is
+          FixLostWorker, \* BOOLEAN: TRUE = the tree after commit 49f83e5 (stopped-before-started workers return themselves, re-init waits for quiescence); FALSE = xz 5.8.1 as released
           CountCalls \* BOOLEAN: count lzma_code calls (history variable for bounding; FALSE for liveness checking)
 
 W == 1..NW
@@ -55,7 +55,7 @@ Init == m = MInit /\ c = CInit /\ t = [w \in W |-> TInit]
 \* pthread_cond_signal(&thr[w].cond): worker w (and, in threads_stop(wait), the main thread) may be waiting on it
 SigW(tt, w) == [tt EXCEPT ![w].sig = (tt[w].pc \in {"park_top", "park_sync", "park_fin"}) \/ tt[w].sig,
                           ![w].waiterMain = (m.pc = "rwaitpark" /\ m.loopI + 1 = w) \/ tt[w].waiterMain]
-SigM(cc) == [cc EXCEPT !.sigM = (m.pc = "wpark") \/ cc.sigM]
+SigM(cc) == [cc EXCEPT !.sigM = (m.pc \in {"wpark", "rqpark"}) \/ cc.sigM]
 
 -----------------------------------------------------------------------------
 (* lzma_code(): entry and return                                             *)
@@ -246,10 +246,17 @@ RWait ==
        THEN IF t[m.loopI + 1].state # "IDLE"
             THEN m' = [m EXCEPT !.pc = "rwaitpark"] /\ UNCHANGED <<c, t>>
             ELSE m' = [m EXCEPT !.loopI = @ + 1] /\ UNCHANGED <<c, t>>
+       ELSE IF FixLostWorker /\ Len(c.free) # m.nInit
+            \* repaired tree: additionally wait (coder.mutex / coder.cond) until every thread has returned itself to
+            \* the stack of free threads, i.e. has finished touching the coder and its output buffer
+            THEN m' = [m EXCEPT !.pc = "rqpark"] /\ UNCHANGED <<c, t>>
        ELSE /\ m' = [MInit EXCEPT !.nInit = m.nInit, !.calls = m.calls, !.reinits = m.reinits, !.tailSz = m.tailSz,
                                   !.orderOk = m.orderOk, !.progressOk = m.progressOk]
             /\ c' = [c EXCEPT !.outq = <<>>, !.readPos = 0, !.threadErr = "OK", !.progressIn = 0, !.sigM = FALSE]
             /\ UNCHANGED t
+RQuiesceWake ==
+    /\ m.pc = "rqpark" /\ (c.sigM \/ Spurious)
+    /\ m' = [m EXCEPT !.pc = "rwait"] /\ c' = [c EXCEPT !.sigM = FALSE] /\ UNCHANGED t
 RWaitWake ==
     /\ m.pc = "rwaitpark" /\ (t[m.loopI + 1].waiterMain \/ Spurious)
     /\ m' = [m EXCEPT !.pc = "rwait"] /\ t' = [t EXCEPT ![m.loopI + 1].waiterMain = FALSE] /\ UNCHANGED c
@@ -282,8 +289,8 @@ GetProgress ==
 
 \* worker_start: thr.mutex: STOP -> IDLE (+signal), wait while IDLE
 \* A worker that was given a Block (GtStart) but sees STOP here before it ever saw RUN goes back to sleep without
-\* returning itself to the stack of free threads (defect of the pinned tree, see known_findings.json).
-\* FixLostWorker = TRUE models a repair: such a worker takes the same exit path as after worker_encode().
+\* returning itself to the stack of free threads (defect of xz 5.8.1 as released, repaired by 49f83e5).
+\* FixLostWorker = TRUE is the repaired code: such a worker takes the same exit path as after worker_encode().
 WTop(w) ==
     /\ t[w].pc = "top"
     /\ LET wasStop == t[w].state = "STOP"
@@ -380,7 +387,7 @@ Worker(w) == WTop(w) \/ WWake(w) \/ (\E f \in (IF MayFail THEN BOOLEAN ELSE {FAL
              \/ WEncSync(w) \/ WEncCode(w) \/ WEncWaitFin(w) \/ WAfter(w) \/ WFinThr(w) \/ WFinCoder(w)
 
 Main == Run \/ BlkRead \/ EncIn \/ GtPop \/ GtCreate \/ GtStart \/ Copy \/ Publish \/ BlkErr \/ Decide \/ Wait \/ WaitWake
-        \/ WaitTimeout \/ StopStep \/ EndSignal \/ EndJoin \/ RStop \/ RWait \/ RWaitWake
+        \/ WaitTimeout \/ StopStep \/ EndSignal \/ EndJoin \/ RStop \/ RWait \/ RWaitWake \/ RQuiesceWake
 
 App == \/ \E a \in {"RUN", "FINISH"} \cup FlushActs, g \in Gives, s \in Spaces : Call(a, Min(g, Total - m.given), s)
        \/ AppEnd \/ AppReinit \/ GetProgress
